@@ -235,13 +235,19 @@ def attr_positions(mode, nE):
         return []
     if mode == "sparse_some":
         return [i for i in range(nE) if i % 2 == 0]
+    if mode == "sparse_dflt":
+        return [i for i in range(nE) if i % 2 == 1]
     return list(range(nE))
 
 
 def attr_names(mode):
     """sparse modes carry a float scalar and an int 2-vector; the dense storage is exercised one attribute at a time
     (a failure on the vector must not hide what happens to the scalar)"""
-    return {"none": [], "sparse_all": ["w", "tag"], "sparse_some": ["w", "tag"], "dense": ["w"], "dense_vec": ["tag"]}[mode]
+    return {"none": [], "sparse_all": ["w", "tag"], "sparse_some": ["w", "tag"], "dense": ["w"], "dense_vec": ["tag"],
+            "sparse_dflt": ["w"]}[mode]
+
+
+CUSTOM_DEFAULT = -1.0          # mode "sparse_dflt": a sparse float attribute created with default_value=-1.0
 
 
 def compare(o, ref, inp):
@@ -346,7 +352,7 @@ def compare(o, ref, inp):
         if md:
             dev("C02.edges.declared_kept", "mismatch:declared_edge_lost", icE, lost=[list(k) for k in md], edges=E)
         if ms:
-            dev("C02.edges.face_sides", "mismatch:face_side_missing", ("volume" if has_cells else "surface") + ":" + icE,
+            dev("C02.edges.face_sides", "mismatch:face_side_missing", ("volume" if has_cells else "surface"),
                 missing=[list(k) for k in ms], edges=E)
     extra = set(good) - wantE
     if extra:
@@ -363,10 +369,14 @@ def compare(o, ref, inp):
         pos = attr_positions(inp["attr"], len(inp["E"]))
         store = "dense" if inp["attr"].startswith("dense") else "sparse"
         icA = store + ":" + ("invalid_edges_dropped" if ninval else "no_invalid_edge")
+        if inp["attr"] == "sparse_dflt":
+            icA = "sparse_custom_default:" + ("invalid_edges_dropped" if ninval else "no_invalid_edge")
         names = inp.get("attr_names") or attr_names(inp["attr"])
         for an, valf, dflt in (("w", W_VALUE, 0.0), ("tag", TAG_VALUE, [0, 0])):
             if an not in names:
                 continue
+            if inp["attr"] == "sparse_dflt":
+                dflt = CUSTOM_DEFAULT
             a = o["attrs"].get("edges." + an)
             if a is None:
                 if o["E"] is not None:
@@ -384,8 +394,13 @@ def compare(o, ref, inp):
                 if got != want and not (isinstance(got, (int, float)) and isinstance(want, (int, float)) and float(got) == float(want)):
                     bad = bad or dict(edge=list(k), declared_at=i, now_at=index_of[k], got=got, want=want)
             if bad:
-                dev("C02.edge_attr.kept", "mismatch:value_lost" if bad["got"] in (dflt, 0, 0.0, [0, 0], [0.0, 0.0]) or str(bad["got"]).startswith("!")
-                    else "mismatch:value_of_other_edge", icA, attribute=an, values=vals, edges=E, **bad)
+                if bad["want"] == CUSTOM_DEFAULT and inp["attr"] == "sparse_dflt":
+                    kind = "mismatch:custom_default_lost"
+                elif bad["got"] in (dflt, 0, 0.0, [0, 0], [0.0, 0.0]) or str(bad["got"]).startswith("!"):
+                    kind = "mismatch:value_lost"
+                else:
+                    kind = "mismatch:value_of_other_edge"
+                dev("C02.edge_attr.kept", kind, icA, attribute=an, values=vals, edges=E, **bad)
             surv_idx = set(index_of[ref["decl_keys"][j]] for j in range(len(ref["surv"])) if ref["decl_keys"][j] in index_of)
             stale = [(i, v) for i, v in enumerate(vals) if i not in surv_idx and v in declared_vals]
             if stale:
@@ -393,7 +408,9 @@ def compare(o, ref, inp):
                     value=stale[0][1], values=vals, edges=E)
     # ---- hard edges
     h = o["attrs"].get("edges.hard_edges")
-    if h is not None and o["E"] is not None:
+    if inp.get("skip_hard"):
+        pass                                    # the file carries its own hard_edges attribute next to all edges
+    elif h is not None and o["E"] is not None:
         flagged = [i for i, v in enumerate(h["vals"]) if v is True or v == 1]
         notdecl = [i for i in flagged if keys[i] not in decl] if len(h["vals"]) == len(keys) else flagged
         if notdecl:
@@ -757,3 +774,53 @@ def behaviours(cls):
         B.append(("VolumeSubdivision.split_cell_as_fan", vsub("split_cell_as_fan", 0)))
         B.append(("VolumeSubdivision.split_tet_from_face_center", vsub("split_tet_from_face_center", 0)))
     return B
+
+
+# ------------------------------------------------------------------------------------------------ self-test
+def selftest():
+    """Pins the families and checks the reference normaliser against brute-force definitions (DESIGN 6.5).
+    -> list of failure strings (empty = ok)"""
+    bad = []
+    if [len(edge_lists(SYMS_SMALL, 2)), len(edge_lists(SYMS_FULL, 2)), len(edge_lists(SYMS_FULL, 3))] != [37, 78, 498]:
+        bad.append("edge list counts changed")
+    # hexahedron: a 4-subset of corners is a face iff one coordinate is constant; consecutive corners differ in one bit
+    c = list(range(10, 18))
+    qs = hex_quads(c)
+    brute = set()
+    for sub in itertools.combinations(range(8), 4):
+        if any(len(set(_CUBE_POS[k][ax] for k in sub)) == 1 for ax in range(3)):
+            brute.add(frozenset(c[k] for k in sub))
+    if set(frozenset(q) for q in qs) != brute or len(qs) != 6:
+        bad.append("hex_quads: wrong vertex sets")
+    for q in qs:
+        for i in range(4):
+            a, b = _CUBE_POS[q[i] - 10], _CUBE_POS[q[(i + 1) % 4] - 10]
+            if sum(x != y for x, y in zip(a, b)) != 1:
+                bad.append("hex_quads: consecutive corners are not joined by a cube edge")
+    if sorted(map(sorted, tet_tris([5, 6, 7, 8]))) != sorted(map(list, itertools.combinations([5, 6, 7, 8], 3))):
+        bad.append("tet_tris")
+    for seq in ([3, 1, 2], [4, 9, 2, 7], [0, 1, 2, 3, 4]):
+        forms = set()
+        for t in (seq, seq[::-1]):
+            for i in range(len(seq)):
+                forms.add(dihedral(t[i:] + t[:i]))
+        if len(forms) != 1:
+            bad.append("dihedral is not invariant")
+    if dihedral([0, 1, 2, 3]) == dihedral([0, 2, 1, 3]):
+        bad.append("dihedral merges different quads")
+    # a hand-worked example: two tets sharing a face, one face pre-declared, edges: reversed, self-loop, index==n
+    r = reference(5, G_PTS, [[2, 1], [1, 1], [0, 5], [3, 0]], [[3, 2, 1]], [[0, 1, 2, 3], [1, 2, 3, 4]], True, True)
+    if r["surv"] != [0, 3] or r["dropped"] != [1, 2] or r["decl_keys"] != [(1, 2), (0, 3)]:
+        bad.append("reference: edge classification")
+    if len(r["faces_completed"]) != 6 or (1, 2, 3) in r["faces_completed"]:
+        bad.append("reference: 4+4 triangles minus the shared one minus the pre-declared one = 6")
+    if expected_class(r, 7) != "VolumeMesh" or expected_class(reference(2, G_PTS, [[1, 1]], [], [], True, True), 0) != "PointCloud":
+        bad.append("reference: class")
+    r0 = reference(5, G_PTS, [], [], [[0, 1, 2, 3]], True, False)
+    if r0["faces_completed"]:
+        bad.append("reference: completion off must not complete")
+    return bad
+
+
+if __name__ == "__main__":
+    print(selftest() or "c02_lib ok")
